@@ -30,7 +30,8 @@ def tmp_root():
     global _tmp_root
     if _tmp_root is None:
         _tmp_root = tempfile.mkdtemp(prefix='nvv-')
-        atexit.register(shutil.rmtree, _tmp_root, True)
+        _owner = os.getpid()
+        atexit.register(lambda: os.getpid() == _owner and shutil.rmtree(_tmp_root, True))
     return _tmp_root
 
 
@@ -46,10 +47,16 @@ def rng(*parts):
     return random.Random(int.from_bytes(h[:8], 'big'))
 
 
-def pmap(fn, items, workers=None):
+def pmap(fn, items, workers=None, procs=False):
+    """parallel map; procs=True forks worker processes (for CPU-bound Python oracles: no GIL)"""
     items = list(items)
     if not items:
         return []
+    if procs:
+        import multiprocessing
+        tmp_root()      # create before forking so that children share (and do not remove) it
+        with multiprocessing.get_context('fork').Pool(min(workers or NCPU, len(items))) as pool:
+            return pool.map(fn, items, chunksize=1)
     with concurrent.futures.ThreadPoolExecutor(max_workers=workers or NCPU) as ex:
         return list(ex.map(fn, items))
 
